@@ -185,7 +185,7 @@ func TestC13(t *testing.T) {
 				c.v.Advance([]int64{secNs, dayNs, 30 * dayNs, yearNs, 3 * yearNs}[rapid.IntRange(0, 4).Draw(t, "dt")])
 				func() {
 					defer func() {
-						if r := recover(); r != nil {
+						if r := notRapid(recover()); r != nil {
 							c.fail("minter BeginBlocker panicked: %v", r)
 						}
 					}()
